@@ -411,9 +411,11 @@ pub fn run(ctx: &Ctx) -> Report {
     let built = proj::snapshot(&sb0.root);
 
     let (files, rounds): (Vec<&str>, Vec<RoundSpec>) = if ctx.thorough() {
-        let files = vec!["src/pkg.veryl", "src/a.veryl", "src/b.veryl", "src/t.veryl", "examples/ex.veryl"];
-        let e_full = edit_alphabet(&files, &fixture::VARIANTS, &["v0", "v1"], true);
-        let e_small = edit_alphabet(&files[..3], &["v0", "v1", "warn", "err_sem"], &["v0"], true);
+        let files = vec!["src/pkg.veryl", "src/a.veryl", "src/b.veryl", "src/t.veryl", "examples/ex.veryl", "src/c.veryl"];
+        let mut e_full = edit_alphabet(&files, &fixture::VARIANTS, &["v0", "v1"], true);
+        e_full.push(Edit::Set("src/pkg.veryl".into(), "iface".into()));
+        let mut e_small = edit_alphabet(&[files[0], files[1], files[2], files[5]], &["v0", "v1", "warn", "err_sem"], &["v0"], true);
+        e_small.push(Edit::Set("src/pkg.veryl".into(), "iface".into()));
         (
             files.clone(),
             vec![
@@ -423,13 +425,26 @@ pub fn run(ctx: &Ctx) -> Report {
             ],
         )
     } else {
-        let files = vec!["src/pkg.veryl", "src/a.veryl", "src/b.veryl"];
-        let e1 = edit_alphabet(&files, &["v0", "v1", "warn", "err_sem"], &["v0"], false);
+        let files = vec!["src/pkg.veryl", "src/a.veryl", "src/b.veryl", "src/c.veryl"];
+        let mut e1 = edit_alphabet(&files, &["v0", "v1", "warn", "err_sem"], &["v0"], false);
+        e1.push(Edit::Set("src/pkg.veryl".into(), "iface".into()));
+        // round 2 is a targeted alphabet that a quick run can complete from every round-1 state:
+        // the dependency-sensitive letters (package constant / package interface / module body
+        // changes, a new dependent file, a removed file, a touch, a Veryl.toml flip)
+        let e2 = vec![
+            Edit::Set("src/pkg.veryl".into(), "iface".into()),
+            Edit::Set("src/pkg.veryl".into(), "v1".into()),
+            Edit::Set("src/c.veryl".into(), "v0".into()),
+            Edit::Set("src/a.veryl".into(), "v1".into()),
+            Edit::Remove("src/a.veryl".into()),
+            Edit::Touch("src/pkg.veryl".into()),
+            Edit::TomlStrip,
+        ];
         (
             files.clone(),
             vec![
-                RoundSpec { max_edits: 1, edits: e1.clone(), commands: vec!["build", "check", "build --check"] },
-                RoundSpec { max_edits: 1, edits: e1, commands: vec!["build", "check"] },
+                RoundSpec { max_edits: 1, edits: e1, commands: vec!["build", "check", "build --check"] },
+                RoundSpec { max_edits: 1, edits: e2, commands: vec!["build", "check"] },
             ],
         )
     };
@@ -455,10 +470,22 @@ pub fn run(ctx: &Ctx) -> Report {
         let combos = edit_combos(&round.edits, round.max_edits);
         // task list, simplest first
         let mut tasks: Vec<(usize, &Vec<Edit>, &str)> = vec![];
-        for (ni, _) in frontier.iter().enumerate() {
+        if ri == 0 {
+            for (ni, _) in frontier.iter().enumerate() {
+                for c in &combos {
+                    for cmd in &round.commands {
+                        tasks.push((ni, c, cmd));
+                    }
+                }
+            }
+        } else {
+            // later rounds: letter-major, so that a budget cut removes whole letters from the end of
+            // the (priority-ordered) alphabet instead of whole start states
             for c in &combos {
-                for cmd in &round.commands {
-                    tasks.push((ni, c, cmd));
+                for (ni, _) in frontier.iter().enumerate() {
+                    for cmd in &round.commands {
+                        tasks.push((ni, c, cmd));
+                    }
                 }
             }
         }
